@@ -16,7 +16,7 @@ two:
   `Pratt.pr (observed policy) pe` (same text, same pieces up to the chunking of renderer
   text), so the policy really is a function of (outer, kind, side) for the renderer that
   C01 / C02 / C08 reason about;
-* `stmt_roundtrip_*` — hence the tokens the statement renderer writes for an operator tree
+* `stmt_roundtrip_{sqlite,postgres,mysql}` — hence the tokens the statement renderer writes for an operator tree
   re-parse, under the engine's table, to that tree (C05 for the statement model).
 
 Leaves are arbitrary statement-model expressions of the right shape class (columns, values,
@@ -425,16 +425,13 @@ theorem stmt_roundtrip_postgres (ρ : Env) (hρ : ∀ a, leafOK (a % 8) (ρ.leaf
   obtain ⟨f, hp⟩ := C05.postgres_roundtrip pe hw
   exact ⟨_, f, stmt_prints_as_pratt .postgres ρ hρ pe hf, hp⟩
 
-/-- **C05 for the statement model, MySQL (partial)**: trees that do not use an excluded cell
-(a bare arithmetic / shift pattern after LIKE — the recorded finding). -/
-theorem stmt_roundtrip_mysql_partial (ρ : Env) (hρ : ∀ a, leafOK (a % 8) (ρ.leaf a) = true) (pe : Pratt.Ex)
+/-- **C05 for the statement model, MySQL.** -/
+theorem stmt_roundtrip_mysql (ρ : Env) (hρ : ∀ a, leafOK (a % 8) (ρ.leaf a) = true) (pe : Pratt.Ex)
     (hw : Pratt.wf Dialects.mysql Gen.Policy.mysqlOps pe = true)
-    (hf : inFrag Gen.Policy.mysqlOps pe = true)
-    (hav : Pratt.pr (Pratt.policyOf Gen.Policy.mysqlCells) pe =
-      Pratt.pr (Pratt.policyOf C05.mysqlCellsGuarded) pe) :
+    (hf : inFrag Gen.Policy.mysqlOps pe = true) :
     ∃ ts f, canon (rEx .mysql (conc ρ pe)) = canon (toks .mysql ρ ts) ∧
       Pratt.parseE Dialects.mysql f 0 ts = some (pe, []) := by
-  obtain ⟨f, hp⟩ := C05.mysql_roundtrip_partial pe hw hav
+  obtain ⟨f, hp⟩ := C05.mysql_roundtrip pe hw
   exact ⟨_, f, stmt_prints_as_pratt .mysql ρ hρ pe hf, hp⟩
 
 /-! Non-vacuity: leaves of every class, and the tree of `Props/C05.ex1` (NOT over a BETWEEN whose lower
